@@ -267,6 +267,14 @@ def gen_unit(rng, stream="main"):
 _ref_cache = {}
 
 
+def block_start():
+    """Defined process-wide state at the start of every block of units and of
+    every replay (see sim/coldstate.py)."""
+    from . import coldstate
+    coldstate.restore()
+    _ref_cache.clear()
+
+
 def _parse_with(source, case, chunk, kwargs, log=None):
     """Run one real parse; returns (outcome, parser)."""
     parser = html5lib.HTMLParser(tree=_tb())
